@@ -73,3 +73,4 @@ pub uninterp spec fn requested_oflags() -> i32;
 pub uninterp spec fn requested_rflags() -> u32;
 pub uninterp spec fn link_body_of(fd: int, body: Seq<u8>) -> bool; // readlinkat(fd, "") returned body
 pub uninterp spec fn reopened_from(fd: int, orig: int) -> bool; // fd = open(/proc/thread-self/fd/<orig>) (A6)
+pub uninterp spec fn follow_site_ok(dir: int, name: Seq<u8>) -> bool; // the one legal follow site: procfs dir, mount-checked, link dentry checked
